@@ -43,7 +43,7 @@ func c13prop(r *simkit.Run) {
 	for i := range st {
 		st[i].lastAccess = -1
 	}
-	nRefusedDropped, nRetry, nIdle, nErr, nAdm := 0, 0, 0, 0, 0
+	nRefusedDropped, nRetry, nIdle, nErr, nAdm, nPaced := 0, 0, 0, 0, 0, 0
 	var trace []string
 	h := simkit.NewHash()
 
@@ -135,7 +135,7 @@ func c13prop(r *simkit.Run) {
 				free = append(free, s)
 			}
 		}
-		kind := rapid.SampledFrom([]string{"req", "req", "req", "flood", "step", "step", "idle-refill", "over-burst"}).Draw(rt, "op")
+		kind := rapid.SampledFrom([]string{"req", "req", "req", "flood", "step", "step", "idle-refill", "over-burst", "paced-flood"}).Draw(rt, "op")
 		if len(free) == 0 {
 			kind = "step"
 		}
@@ -161,6 +161,52 @@ func c13prop(r *simkit.Run) {
 			amount := int64(rapid.IntRange(1, int(mb)).Draw(rt, "amt"))
 			for k := 0; k < n; k++ {
 				request(src, amount)
+			}
+		case "paced-flood":
+			// A source that keeps asking more often than its slowest rate refills is refused most of the time; those
+			// refusals must not cost it the quota that accrues meanwhile: it still gets through about once per token
+			// interval of the slowest rate. (Lower bound kept generous: half that rate, minus two.)
+			if len(free) != nsrc {
+				continue // no retry probe may be pending: the clock is advanced freely here
+			}
+			src := free[rapid.IntRange(0, len(free)-1).Draw(rt, "src")]
+			var slow time.Duration
+			for _, rr := range rates {
+				if rr.perToken() > slow {
+					slow = rr.perToken()
+				}
+			}
+			delta := slow / time.Duration(rapid.IntRange(2, 4).Draw(rt, "flood-div"))
+			if rapid.Bool().Draw(rt, "flood-just-below") {
+				delta = slow - time.Duration(rapid.IntRange(1, 1000).Draw(rt, "flood-ns"))
+			}
+			if delta <= 0 {
+				continue
+			}
+			for k := 0; k < 60; k++ { // drain at one instant
+				if request(src, 1).class() != ansAdmit {
+					break
+				}
+			}
+			n := int(8*(slow+delta)/delta) + 1
+			if n > 80 {
+				continue
+			}
+			got := 0
+			t0 := now()
+			for k := 0; k < n; k++ {
+				advance(delta)
+				if request(src, 1).class() == ansAdmit {
+					got++
+				}
+			}
+			span := now() - t0
+			need := int(span/(2*(slow+delta))) - 2
+			nPaced++
+			if got < need {
+				r.Tracef("trace: %v", trace)
+				r.Fail("refusals-starve-the-source", "source s%d asked for one unit every %v for %v (slowest rate: one token per %v): admitted %d times, at least %d expected - refused requests are eating the quota that accrues meanwhile (rates %v)",
+					src, delta, span, slow, got, need, rates)
 			}
 		case "step":
 			stepTo(drawStep(rt, rates, "dt"))
@@ -218,6 +264,7 @@ func c13prop(r *simkit.Run) {
 	r.ProbeN("refused-requests-dropped-from-twin", nRefusedDropped)
 	r.ProbeN("retry-after-advertised-delay", nRetry)
 	r.ProbeN("idle-refill", nIdle)
+	r.ProbeN("paced-flood", nPaced)
 	r.ProbeN("amount>burst", nErr)
 	if len(rates) > 1 {
 		r.Probe("multi-rate")
